@@ -1,8 +1,215 @@
-/- line-protocol handlers for the C14 models (stub: nothing modelled yet) -/
+/- line-protocol handlers for the C14 models (RangeSet, SparseBitSet, IntSet) -/
 import FontVerif.Model.Base
+import FontVerif.Model.RangeSet
+import FontVerif.Model.SparseBitSet
+import FontVerif.Model.IntSet
 namespace FontVerif.Drv.C14
 open FontVerif
 
-def handle (_cmd : String) (_args : List String) : Option String := none
+/-! ### small parsers / printers -/
+
+def splitNats? (sep : String) (s : String) : Option (List Nat) :=
+  if s = "-" then some [] else (s.splitOn sep).mapM (fun t => t.toNat?)
+
+def parsePairInt? (s : String) : Option (Int × Int) :=
+  match s.splitOn ":" with
+  | [a, b] => do let x ← a.toInt?; let y ← b.toInt?; pure (x, y)
+  | _ => none
+
+def parsePairNat? (s : String) : Option (Nat × Nat) :=
+  match s.splitOn ":" with
+  | [a, b] => do let x ← a.toNat?; let y ← b.toNat?; pure (x, y)
+  | _ => none
+
+def showPairsInt (rs : List (Int × Int)) : String :=
+  if rs.isEmpty then "-" else ",".intercalate (rs.map (fun p => s!"{p.1}:{p.2}"))
+
+def showPairs (rs : List (Nat × Nat)) : String :=
+  if rs.isEmpty then "-" else ",".intercalate (rs.map (fun p => s!"{p.1}:{p.2}"))
+
+def showNats (xs : List Nat) : String :=
+  if xs.isEmpty then "-" else ",".intercalate (xs.map toString)
+
+def showOptNat : Option Nat → String
+  | some v => toString v
+  | none => "n"
+
+def bit (b : Bool) : String := if b then "1" else "0"
+
+/-! ### RangeSet -/
+
+/-- `rs.run s:e s:e …` → the entry list after every insert -/
+def rsRun (args : List String) : Option String := do
+  let ops ← args.mapM parsePairInt?
+  let (_, outs) := ops.foldl (fun (st : RangeSet.Ranges × List String) op =>
+    let rs := RangeSet.insert st.1 op.1 op.2
+    (rs, showPairsInt rs :: st.2)) ([], [])
+  pure (if outs.isEmpty then "-" else "|".intercalate outs.reverse)
+
+/-- `rs.int opsA / opsB` → intersection of the two built sets -/
+def rsInt (args : List String) : Option String := do
+  let (a, b) := args.span (· ≠ "/")
+  let opsA ← a.mapM parsePairInt?
+  let opsB ← (b.drop 1).mapM parsePairInt?
+  let ra := RangeSet.insertAll [] opsA
+  let rb := RangeSet.insertAll [] opsB
+  pure (showPairsInt (RangeSet.intersection ra rb))
+
+/-! ### sparse bit set -/
+
+def showDecode (r : SparseBitSet.DecodeResult) : String :=
+  match r with
+  | .error => "err"
+  | .outOfFuel => "fuel"
+  | .ok ins rest => s!"ok {showPairsInt (SparseBitSet.normalize ins)} {toHex rest}"
+
+def sbsDec (args : List String) : Option String :=
+  match args with
+  | [bias, maxv, hex] => do
+    let b ← bias.toNat?; let m ← maxv.toNat?; let data ← parseHex? hex
+    pure (showDecode (SparseBitSet.decode data b m))
+  | _ => none
+
+/-- the specification decoder (no height limit, bias/max applied to the denoted set) -/
+def sbsSpec (args : List String) : Option String :=
+  match args with
+  | [bias, maxv, hex] => do
+    let b ← bias.toNat?; let m ← maxv.toNat?; let data ← parseHex? hex
+    match SparseBitSet.specDecode data with
+    | none => pure "err"
+    | some (ivs, rest) =>
+      pure s!"ok {showPairsInt (SparseBitSet.normalize (SparseBitSet.specClip ivs b m))} {toHex rest}"
+  | _ => none
+
+def sbsEnc (args : List String) : Option String :=
+  match args with
+  | bf :: ranges => do
+    let bf ← bf.toNat?
+    let rs ← ranges.mapM parsePairNat?
+    let members := IntSet.expand rs
+    if bf = 0 then pure (toHex (SparseBitSet.encode members))
+    else if bf = 2 ∨ bf = 4 ∨ bf = 8 ∨ bf = 32 then
+      match SparseBitSet.encodeBf bf members with
+      | some bytes => pure (toHex bytes)
+      | none => pure "panic"
+    else none
+  | _ => none
+
+/-! ### IntSet op-sequence interpreter -/
+
+open IntSet in
+def discDomain : IntSet.Domain :=
+  ⟨[(2, 5), (8, 16), (510, 513), (1022, 1030), (65530, 65536), (4294967294, 4294967295)], false, 35⟩
+
+def parseDomain? (s : String) : Option IntSet.Domain :=
+  match s with
+  | "u32" => some IntSet.Domain.u32
+  | "u16" => some IntSet.Domain.u16
+  | "gid16" => some IntSet.Domain.u16
+  | "u8" => some IntSet.Domain.u8
+  | "disc" => some discDomain
+  | _ => none
+
+structure Regs where
+  r0 : IntSet.IntSet
+  r1 : IntSet.IntSet
+  r2 : IntSet.IntSet
+
+def Regs.get (r : Regs) (i : Nat) : IntSet.IntSet :=
+  if i = 0 then r.r0 else if i = 1 then r.r1 else r.r2
+
+def Regs.set (r : Regs) (i : Nat) (s : IntSet.IntSet) : Regs :=
+  if i = 0 then { r with r0 := s } else if i = 1 then { r with r1 := s } else { r with r2 := s }
+
+def showOrd : Ordering → String
+  | .lt => "l"
+  | .eq => "e"
+  | .gt => "g"
+
+def ITER_CAP : Nat := 6
+
+/-- the observation vector of register `i` -/
+def observe (d : IntSet.Domain) (probes : List Nat) (regs : Regs) (i : Nat) (ret : String) : String :=
+  let s := regs.get i
+  let len := match s.len d with
+    | some n => toString n
+    | none => "trap"
+  let fwd := s.iterTake d ITER_CAP
+  let back := s.iterBackTake d ITER_CAP
+  let ranges := s.ranges d
+  let ex := s.excludedRanges d
+  let contains := String.join (probes.map (fun p => bit (s.contains p)))
+  let afters := "/".intercalate ((probes.take 4).map (fun p => showNats (s.iterAfterTake d p 3)))
+  let pairs := (probes.zip (probes.drop 1)).take 6
+  let ir := String.join (pairs.map (fun (a, b) =>
+    bit (s.intersectsRange d a b) ++ bit (s.intersectsRange d b a)))
+  let others := ([0, 1, 2].filter (· ≠ i)).map (fun q =>
+    let t := regs.get q
+    s!"e{bit (s.beq d t)}c{showOrd (s.cmp d t)}h{bit (s.hashKey d == t.hashKey d)}x{bit (s.intersectsSet d t)}")
+  ";".intercalate [ret, bit s.inverted, len, showOptNat (fwd.head?), showOptNat (back.head?),
+    showNats fwd, showNats back, showPairs (ranges.take ITER_CAP), showPairs (ex.take ITER_CAP),
+    contains, afters, ir, String.join others]
+
+def boolStr (b : Bool) : String := if b then "t" else "f"
+
+/-- apply one op token; returns the new registers, the target register and the op's return value -/
+def applyOp (d : IntSet.Domain) (regs : Regs) (tok : String) : Option (Regs × Nat × String) :=
+  match tok.splitOn ":" with
+  | [] => none
+  | head :: params =>
+    match head.toList with
+    | [c, rc] => do
+      let r ← (String.singleton rc).toNat?
+      if r > 2 then none else
+      let s := regs.get r
+      match c, params with
+      | 'i', [v] => do let v ← v.toNat?; let x := s.insert v; pure (regs.set r x.1, r, boolStr x.2)
+      | 'd', [v] => do let v ← v.toNat?; let x := s.remove v; pure (regs.set r x.1, r, boolStr x.2)
+      | 'I', [a, b] => do
+        let a ← a.toNat?; let b ← b.toNat?
+        pure (regs.set r (s.insertRange d a b), r, "-")
+      | 'D', [a, b] => do
+        let a ← a.toNat?; let b ← b.toNat?
+        pure (regs.set r (s.removeRange d a b), r, "-")
+      | 'x', [vs] => do let vs ← splitNats? "," vs; pure (regs.set r (s.extend vs), r, "-")
+      | 'X', [vs] => do let vs ← splitNats? "," vs; pure (regs.set r (s.removeAll vs), r, "-")
+      | 'u', [q] => do let q ← q.toNat?; if q > 2 then none else pure (regs.set r (s.union (regs.get q)), r, "-")
+      | 'n', [q] => do let q ← q.toNat?; if q > 2 then none else pure (regs.set r (s.intersect (regs.get q)), r, "-")
+      | 's', [q] => do let q ← q.toNat?; if q > 2 then none else pure (regs.set r (s.subtract (regs.get q)), r, "-")
+      | 'k', [q] => do let q ← q.toNat?; if q > 2 then none else pure (regs.set r (regs.get q), r, "-")
+      | 'v', [] => pure (regs.set r s.invert, r, "-")
+      | 'c', [] => pure (regs.set r s.clear, r, "-")
+      | 'a', [] => pure (regs.set r IntSet.IntSet.all, r, "-")
+      | 'e', [] => pure (regs.set r IntSet.IntSet.empty, r, "-")
+      | _, _ => none
+    | _ => none
+
+/-- `is.run <domain> <probes> <op> <op> …` -/
+def isRun (args : List String) : Option String :=
+  match args with
+  | dom :: probes :: ops => do
+    let d ← parseDomain? dom
+    let probes ← splitNats? "," probes
+    let init : Regs := ⟨IntSet.IntSet.empty, IntSet.IntSet.empty, IntSet.IntSet.empty⟩
+    let rec go (regs : Regs) (ops : List String) (acc : List String) : Option (List String) :=
+      match ops with
+      | [] => some acc.reverse
+      | tok :: rest =>
+        match applyOp d regs tok with
+        | none => none
+        | some (regs', r, ret) => go regs' rest (observe d probes regs' r ret :: acc)
+    let outs ← go init ops []
+    pure (if outs.isEmpty then "-" else " | ".intercalate outs)
+  | _ => none
+
+def handle (cmd : String) (args : List String) : Option String :=
+  match cmd with
+  | "rs.run" => rsRun args
+  | "rs.int" => rsInt args
+  | "sbs.dec" => sbsDec args
+  | "sbs.spec" => sbsSpec args
+  | "sbs.enc" => sbsEnc args
+  | "is.run" => isRun args
+  | _ => none
 
 end FontVerif.Drv.C14
